@@ -224,6 +224,37 @@ def run_case(kind, p):
             break
     if abs(g.error - (np.linalg.norm(pts - (g.zero + idx @ np.array([g.a, g.b])), axis=1) * w).sum() / w.sum()) > 1e-9 * scale:
         msgs.append("error of the guess changed after deriving from it")
+    # "the optimisation methods of a match": a match that selects only PART of its correlation result (as a fast match that
+    # rejected some peaks does) is fitted to, and reports the error of, its own selected peaks
+    n_ = len(pts)
+    if n_ >= 5:
+        rs = np.random.default_rng(int(np.abs(pts).sum() * 1000) % (2 ** 31))
+        mask = None
+        for _ in range(6):
+            cand = rs.random(n_) < 0.6
+            pos = cand & (w > 0)
+            if 3 <= cand.sum() < n_ and pos.sum() >= 3 and np.linalg.matrix_rank(np.hstack([np.ones((pos.sum(), 1)), idx[pos]])) == 3:
+                mask = cand
+                break
+        if mask is not None:
+            sub = grm.Match(m.correlation_result, selector=mask, zero=m.zero, a=m.a, b=m.b, indices=idx[mask])
+            for nm, o, ww in (("weighted_optimize", sub.weighted_optimize(), w[mask]),
+                              ("optimize", sub.optimize(), np.ones(int(mask.sum())))):
+                calc = o.zero + idx[mask] @ np.array([o.a, o.b])
+                e_ref = (np.linalg.norm(pts[mask] - calc, axis=1) * w[mask]).sum() / w[mask].sum()
+                if abs(o.error - e_ref) > 1e-9 * max(1.0, e_ref):
+                    msgs.append(f"match over {int(mask.sum())} of {n_} peaks, {nm}(): error = {o.error} is not the "
+                                f"elevation-weighted mean residual {e_ref} of its own peaks")
+                    break
+                best = wss(o.zero, o.a, o.b, idx[mask], pts[mask], ww)
+                A = np.hstack([np.ones((int(mask.sum()), 1)), idx[mask]]) * np.sqrt(ww)[:, None]
+                x = np.linalg.lstsq(A, pts[mask] * np.sqrt(ww)[:, None], rcond=None)[0]
+                if wss(x[0], x[1], x[2], idx[mask], pts[mask], ww) < best - 1e-9 * max(1.0, best):
+                    msgs.append(f"match over {int(mask.sum())} of {n_} peaks, {nm}(): not the least-squares fit of its own peaks")
+                    break
+                if not np.array_equal(np.asarray(o.selector), mask):
+                    msgs.append(f"match over a subset, {nm}(): the selection changed")
+                    break
     return msgs[:6]
 
 
